@@ -41,6 +41,19 @@ INITIALLY_MISSED = {  # seeded change -> what the check lacked (strengthening do
  "C48-1": "two packages with the identical eclass set read through one tree instance with live package objects",
  "C48-2": "ebuild content edit that keeps the mtime (md5 backend) in quick; runner no longer lets non-reproducing candidates mask reproducing ones",
  "C49-1": "statements (unset-then-assign) after the nested inherit in the outer eclass and the 'inherit outer flat' shape",
+ "C06-3": "caught by C07 (equal restrictions must match alike); C06 builds its trees uncached, so the instance-cache aliasing itself is outside C06's seam",
+ "C10-4": "NOT caught and left so: needs prefer_true and force_false to overlap, which C10 excludes (forcing and preference sets are pairwise disjoint; no in-tree caller passes overlapping sets)",
+ "C11-4": "user package.use lines of the shape 'plain flag, plain in-line -*, USE_EXPAND group' added to the C11 domain tier",
+ "C12-3": "caught by C13 after adding a two-repository variant (each repository with its own license groups, filtered through one domain in both orders)",
+ "C14-3": "attributes mixing group conditionals with transitive USE-dep atoms, a fresh raw package per history and a second configured view added to C14",
+ "C17-4": "replace between equal-cpv packages from two repositories (x-1[vdb] -> x-1[source]) added to the C17 alphabet",
+ "C19-3": "caught by C18 (stale '#new' sibling state); C19 excludes pre-existing '#new' paths by design",
+ "C22-3": "three-step family add_missing_directories / removing operation / add_missing_directories added to C22 quick",
+ "C22-4": "iterator/generator arguments naming one normalised path twice added to every binary operation of C22",
+ "C29-3": "second generation: every acceptable post-crash state is a start state from which the operation is re-run under every fault plan",
+ "C29-4": "NOT caught and left so: needs a category directory on a different filesystem than the repository root (cross-filesystem shutil.move); outside the alphabet",
+ "C36-4": "fetcher without a separate resume command and an outcome that appends the next chunk to the partial file added to C36",
+ "C42-4": "file-ending dimension (unterminated last line, extra blank line) added to C42",
  "C49-2": "exclusion of the implicit RDEPEND=DEPEND rule (EAPI 0-3) lifted: PMS is explicit that eclass DEPEND never enters it",
 }
 for d in sorted(glob.glob("/verif/seeded/*/")):
